@@ -252,7 +252,10 @@ func New(c *config.Config) (*Olric, error) {
 }
 
 func (db *Olric) preconditionFunc(conn redcon.Conn, _ redcon.Command) bool {
-	err := db.isOperable()
+	// Write the error of the routing table itself: that is the one registered with a
+	// protocol prefix (CLUSTERQUORUM), the converted public error would be sent as a
+	// generic ERR reply which no client can map back to ErrClusterQuorum.
+	err := db.checkOperable()
 	if err != nil {
 		protocol.WriteError(conn, err)
 		return false
@@ -306,8 +309,12 @@ func convertClusterError(err error) error {
 
 // isOperable controls bootstrapping status and cluster quorum to prevent split-brain syndrome.
 func (db *Olric) isOperable() error {
+	return convertClusterError(db.checkOperable())
+}
+
+func (db *Olric) checkOperable() error {
 	if err := db.rt.CheckMemberCountQuorum(); err != nil {
-		return convertClusterError(err)
+		return err
 	}
 	// An Olric node has to be bootstrapped to function properly.
 	return db.rt.CheckBootstrap()
